@@ -252,7 +252,9 @@ def hist_specs():
     plain = gp_cases.make_spec({"links": ["bb", "ang3"]})
     rm = gp_cases.make_spec({"links": ["rm", "bb"]})
     dna = dict(blocks=DNA_BLOCKS, links=[dict(resname=list(DNA_BLOCKS), inter={"bonds": [F.I(["BB", "+BB"], ["1", "0.3", "50"])]})], mods={})
-    return dict(mixed=mixed, plain=plain, rm=rm, dna=dna)
+    # an edited version of 'plain' (other bond, no angle, one more link) that is written to the same file name
+    plain_edited = gp_cases.make_spec({"links": ["bbA", "gt"]})
+    return dict(mixed=mixed, plain=plain, rm=rm, dna=dna, plain_edited=plain_edited)
 
 
 HIST_INPUTS = [
@@ -262,6 +264,8 @@ HIST_INPUTS = [
     dict(id="dsdna", spec="dna", seq=["DA5:1", "DG:1", "DT3:1"], dsdna=True),
     dict(id="removal", spec="rm", seq=["B:1", "A:2"]),
     dict(id="plain-ACB", spec="plain", seq=["A:1", "C:1", "B:1"]),
+    # the definitions file of 'plain' edited in place: same path as an earlier call, other content
+    dict(id="plain-AAB-file-edited-in-place", spec="plain_edited", fname="ff_plain.ff", seq=["A:2", "B:1"]),
     # calls that only name a library of the package (inpath left at the API default)
     dict(id="lib-martini3-PEO", lib=["martini3"], seq=["PEO:3"]),
     dict(id="lib-martini2-PDADMA", lib=["martini2"], seq=["PDADMA:3"]),
@@ -275,7 +279,7 @@ def run_hist_input(workdir, idx, tag):
         r = H.run_gen_params(workdir, [], seq=inp["seq"], outname=f"out_{tag}.itp", lib=inp["lib"], default_inpath=True)
     else:
         spec = hist_specs()[inp["spec"]]
-        r = H.run_gen_params(workdir, [(f"ff_{inp['spec']}.ff", F.render_ff(spec))], seq=inp["seq"], dsdna=inp.get("dsdna", False),
+        r = H.run_gen_params(workdir, [(inp.get("fname") or f"ff_{inp['spec']}.ff", F.render_ff(spec))], seq=inp["seq"], dsdna=inp.get("dsdna", False),
                              outname=f"out_{tag}.itp")
     if r["exc"] is not None:
         return ("EXC", type(r["exc"]).__name__)
